@@ -117,12 +117,12 @@ impl RdfStore {
             }
         }
 
-        // Insert into primary storage
-        {
-            let mut triples = self.triples.write();
-            if !triples.insert(Arc::clone(&triple)) {
-                return false;
-            }
+        // Insert into primary storage. The guard stays held until the indexes are
+        // updated, so that the set and its indexes change in one critical section
+        // (a concurrent insert/remove of the same triple cannot slip in between).
+        let mut triples = self.triples.write();
+        if !triples.insert(Arc::clone(&triple)) {
+            return false;
         }
 
         // Update indexes
@@ -159,13 +159,10 @@ impl RdfStore {
     ///
     /// Returns `true` if the triple was found and removed.
     pub fn remove(&self, triple: &Triple) -> bool {
-        // Remove from primary storage
-        let removed = {
-            let mut triples = self.triples.write();
-            triples.remove(triple)
-        };
-
-        if !removed {
+        // Remove from primary storage. The guard stays held until the indexes are
+        // updated, so that the set and its indexes change in one critical section.
+        let mut triples = self.triples.write();
+        if !triples.remove(triple) {
             return false;
         }
 
@@ -301,18 +298,20 @@ impl RdfStore {
 
     /// Returns triples with the given object.
     pub fn triples_with_object(&self, object: &Term) -> Vec<Arc<Triple>> {
-        let index = self.object_index.read();
-        if let Some(ref idx) = *index {
-            idx.get(object).cloned().unwrap_or_default()
-        } else {
-            // Fall back to full scan if object index is disabled
-            self.triples
-                .read()
-                .iter()
-                .filter(|t| t.object() == object)
-                .cloned()
-                .collect()
+        {
+            let index = self.object_index.read();
+            if let Some(ref idx) = *index {
+                return idx.get(object).cloned().unwrap_or_default();
+            }
         }
+        // Fall back to full scan if object index is disabled (the index guard is
+        // released first: writers lock `triples` before the indexes)
+        self.triples
+            .read()
+            .iter()
+            .filter(|t| t.object() == object)
+            .cloned()
+            .collect()
     }
 
     /// Returns all unique subjects in the store.
@@ -344,7 +343,9 @@ impl RdfStore {
 
     /// Clears all triples from the store.
     pub fn clear(&self) {
-        self.triples.write().clear();
+        // Hold the primary guard while the indexes are cleared (one critical section)
+        let mut triples = self.triples.write();
+        triples.clear();
         self.subject_index.write().clear();
         self.predicate_index.write().clear();
         if let Some(ref mut idx) = *self.object_index.write() {
